@@ -36,10 +36,10 @@ func init() {
 			}),
 			{ID: "L0", Desc: "non-vacuity: instance counts confirmed by hand", Run: func(e *Engine) {
 				e.pass("L0", "counts", "-", "minimum instance counts asserted")
-				e.minCount("L1", 60)
-				e.minCount("L2", 20)
-				e.minCount("L3", 18)
-				e.minCount("L4", 18)
+				e.minCount("L1", 40)
+				e.minCount("L2", 12)
+				e.minCount("L3", 12)
+				e.minCount("L4", 12)
 			}},
 		},
 	})
